@@ -34,23 +34,26 @@ class Sum(Aggregation):
 
 
 class Mean(Aggregation):
+    @staticmethod
+    def _result(totals, counts):
+        # the mean of nothing is NaN; the state keeps the true count
+        if isinstance(counts, Number) and counts == 0:
+            return np.nan
+        return totals / counts
+
     def on_new(self, acc, new):
         totals, counts = acc
         if len(new):
             totals = totals + new.sum()
             counts = counts + new.count()
-        if isinstance(counts, Number) and counts == 0:
-            counts = 1
-        return (totals, counts), totals / counts
+        return (totals, counts), self._result(totals, counts)
 
     def on_old(self, acc, old):
         totals, counts = acc
         if len(old):
             totals = totals - old.sum()
             counts = counts - old.count()
-        if isinstance(counts, Number) and counts == 0:
-            counts = 1
-        return (totals, counts), totals / counts
+        return (totals, counts), self._result(totals, counts)
 
     def initial(self, new):
         s, c = new.sum(), new.count()
